@@ -182,7 +182,15 @@ func runSolver(parent context.Context, s Solver, script string, dir string, id s
 	_ = cmd.Run()
 	el := time.Since(t0).Seconds()
 	o := out.String()
-	first := strings.TrimSpace(strings.SplitN(strings.TrimSpace(o), "\n", 2)[0])
+	first := ""
+	for _, ln := range strings.Split(o, "\n") {
+		ln = strings.TrimSpace(ln)
+		if ln == "" || strings.HasPrefix(ln, "WARNING") {
+			continue
+		}
+		first = ln
+		break
+	}
 	st := "error"
 	switch first {
 	case "unsat", "sat", "unknown":
